@@ -917,12 +917,16 @@ bool OPNMIDIplay::doUniversalSysEx(unsigned dev, bool realtime, const uint8_t *d
     switch(((unsigned)realtime << 16) | address)
     {
         case (0 << 16) | 0x0901: // GM System On
+            if(size != 0)
+                break;
             if(hooks.onDebugMessage)
                 hooks.onDebugMessage(hooks.onDebugMessage_userData, "SysEx: GM System On");
             m_synthMode = Mode_GM;
             realTime_ResetState();
             return true;
         case (0 << 16) | 0x0902: // GM System Off
+            if(size != 0)
+                break;
             if(hooks.onDebugMessage)
                 hooks.onDebugMessage(hooks.onDebugMessage_userData, "SysEx: GM System Off");
             m_synthMode = Mode_XG;//TODO: TEMPORARY, make something RIGHT
